@@ -27,7 +27,7 @@ import c03_spec as S
 
 ID = "C03"
 PROPS_FILE = "Props/C03.v"
-MODEL_TARGETS = ["Corr/C03_Eval.v"]
+MODEL_TARGETS = ["Corr/C03_Eval.v", "Corr/C03_SpecEval.v"]
 ALLOWED_AXIOMS = []
 RULE = ("scripts over {send,recv,close,select(send/recv/default cases, nil channel cases),range,go,Gosched,Goexit,print}; "
         "exhaustive domains, fixed-seed samples of them per run (quick 2.2k+2.2k, thorough 40k+40k): ex2 = main=[go 1]+<=2 ops x goroutine 1 <=2 ops; "
@@ -43,24 +43,40 @@ TRUSTED = ["model of goroutines.js/types.js written by hand (coq/Model/C03_Chan.
            "harness/js/c03_driver.js: interpreter of scripts in the compiled calling convention; FIFO timer queue standing for node's "
            "same-delay timer order; runtime.Gosched/Goexit re-written by hand from natives/src/runtime/runtime.go (the compiled-program "
            "tie runs the real ones)",
-           "harness/py/c03_spec.py: reference LTS of Go channels used as the direct oracle; validated against native Go on deterministic programs",
+           "coq/Model/C03_Spec.v: reference LTS of Go channels written from the language spec (capacity + FIFO buffer + closed flag; "
+           "unbuffered rendezvous with a parked partner; select = any case that can proceed, default only if none can; panics); tied on every run: "
+           "Coq evaluates it on explored histories (Corr/C03_SpecEval.spec_verdict), it must accept what the independent Python reference accepts and "
+           "must reject the two historic defective behaviours (negative controls)",
+           "coq/Model/C03_Abs.v: abstraction function and the witness actions_of (which spec steps one implementation step stands for): checked by "
+           "Coq per explored history for every step kind, proved only for the step kinds of C03_impl_refines_spec_partial",
+           "harness/py/c03_spec.py: second, independent reference LTS of Go channels (search-based) used as the direct oracle on the REAL runtime's "
+           "observations; validated against native Go on deterministic programs",
            "defer/recover machinery ($callDeferred/$panic) is exercised by the compiled programs but not modelled (C08)"]
 ASSUMPTIONS = ["no Go function handed to JavaScript ($checkForDeadlock stays true, $exportedFunctions = 0)",
                "timers: only delay-0 timers created by runtime.Gosched; same-delay timers fire in insertion order",
                "every goroutine recovers its own panics at its top (a panic ends the goroutine, not the program)",
                "no JavaScript exception other than the modelled panics escapes $runScheduled"]
-TECHNIQUE = "Coq proof (invariants by induction over all histories and oracle streams) + differential correspondence with the real prelude and compiled programs"
+TECHNIQUE = ("Coq proof (invariants by induction over all histories and oracle streams; step-wise refinement of a reference LTS of Go channels, "
+             "partly proved and evaluated by Coq on every explored history) + differential correspondence with the real prelude and compiled programs")
 LEVEL_TEXT = ("Machine-checked theorems about an executable model of $send/$recv/$close/$select/$go/$schedule/$runScheduled/$block/$setTimeout, "
-              "for every program, every pick oracle and every time-slice oracle (induction over all histories): the queue/buffer invariants incl. "
-              "conservation accepted = received ++ buffered, registration of every sleeping goroutine in the queues of its pending operation, and "
-              "no lost wake-up (a sleeping goroutine's operation is never possible) - proved for the current (repaired) code. The runtime is probed "
-              "on every run for the variant it implements (a non-repaired runtime is reported through the two witnesses); the model is tied to the "
-              "real prelude and to compiled programs (int, struct and array channel elements) on every run; a reference LTS of Go channels judges "
-              "every observed history directly.")
-LEVEL_NOTE = ("Proved in Coq for the current code: C03_chan_invariants, C03_registration, C03_no_lost_wakeup (full strength), "
-              "C03_deadlock_report_sound_partial. NOT proved: deadlock_report_iff (counting invariant missing) and impl_refines_spec - "
-              "both are checked per generated history by the reference LTS (harness/py/c03_spec.py), not by proof. Not modelled: defer/recover "
-              "machinery, $exportedFunctions/$checkForDeadlock=false, timers with non-zero delays, wall-clock.")
+              "for every program, every pick oracle and every time-slice oracle (induction over all histories), proved for the current (repaired) code: "
+              "the queue/buffer invariants incl. conservation accepted = received ++ buffered; registration of every sleeping goroutine in the queues of "
+              "its pending operation AND its converse (no stale or duplicate queue entries; exact run-queue invariant); no lost wake-up; the "
+              "whole-scheduler counting invariant $awakeGoroutines = #goroutines not asleep + #pending Gosched timers; and the deadlock report as a full "
+              "iff (reported exactly when main has not finished, nothing is scheduled or pending and every goroutine sleeps on an operation that cannot "
+              "proceed). A reference LTS of Go channels is now a Coq definition (Model/C03_Spec.v) with an abstraction function; refinement "
+              "(each implementation step = the named spec steps with the same events) is proved for scheduler steps, goroutine return, resumption after "
+              "any wake-up, print, Goexit, Gosched, and evaluated by Coq for every step of explored histories. The runtime is probed on every run for the "
+              "variant it implements; the model is tied to the real prelude and to compiled programs on every run; a second, independent Python LTS "
+              "judges every observed history of the real runtime directly.")
+LEVEL_NOTE = ("Proved in Coq for the current code: C03_chan_invariants, C03_registration, C03_no_lost_wakeup, C03_no_stale_entries, "
+              "C03_entries_invariant, C03_scheduled_awake, C03_running_wf, C03_counting_invariant, C03_deadlock_report_iff (full statement; "
+              "C03_deadlock_report_sound_partial kept), C03_impl_refines_spec_partial. NOT proved: C03_impl_refines_spec_full_statement for the step in "
+              "which a goroutine itself executes send / receive / range / close / select / go and for the Gosched timer callback (needs the invariant "
+              "'a blocked goroutine's code head is the operation it is registered for', not yet threaded through the operations) - these step kinds are "
+              "only compared: Coq evaluates the refinement check on a fixed stride of the explored histories (quick: every 8th exhaustive / 4th random "
+              "case and all program scripts; thorough: every 4th) and the Python reference judges all of them. Not modelled: defer/recover machinery, "
+              "$exportedFunctions/$checkForDeadlock=false, timers with non-zero delays, wall-clock.")
 
 DRIVER = os.path.join(C.JS, "c03_driver.js")
 PRELOAD = os.path.join(C.JS, "c03_preload.js")
@@ -159,14 +175,17 @@ def coq_case(case, res, variant, fuel):
         "; ".join(str(p) for p in case["picks"]), "; ".join(coq_bool(b) for b in case["breaks"]), fuel, obs)
 
 
-HEADER = ("From Coq Require Import List NArith ZArith.\nFrom Verif Require Import Model.C03_Chan Corr.C03_Eval.\n"
+HEADER = ("From Coq Require Import List NArith ZArith.\nFrom Verif Require Import Model.C03_Chan Corr.C03_Eval Corr.C03_SpecEval.\n"
           "Import ListNotations.\n")
 
 
-def coq_mismatches(ctx, vcases, tag):
-    """evaluate case_ok in Coq; returns (list of mismatching indices, list of error texts)"""
+def coq_mismatches(ctx, vcases, tag, spec_pick=()):
+    """evaluate case_ok in Coq; returns (list of mismatching indices, list of error texts, spec rows).
+    spec_pick: indices of the cases which the Coq reference LTS judges as well, in the same coqc process (phase 4):
+    spec rows = [(index, init_ok, verdict code)] for the picked cases (see coq_spec_rejected)"""
     shard = max(100, min(400, -(-len(vcases) // C.NCPU)))      # one round on all cores when possible
     shards = [vcases[i:i + shard] for i in range(0, len(vcases), shard)]
+    picks = [[i for i in spec_pick if k * shard <= i < (k + 1) * shard] for k in range(len(shards))]
 
     def run_shard(k):
         p = os.path.join(ctx.work, "cases_%s_%d.v" % (tag, k))
@@ -174,22 +193,33 @@ def coq_mismatches(ctx, vcases, tag):
             f.write(HEADER)
             f.write("Definition cases : list case := [\n" + ";\n".join(shards[k]) + "].\n")
             f.write("Definition M := Eval vm_compute in mismatches cases.\nPrint M.\n")
+            if picks[k]:
+                f.write("Definition scases : list case := [\n" + ";\n".join(vcases[i] for i in picks[k]) + "].\n")
+                f.write("Definition R := Eval vm_compute in map (fun c => (init_ok c, spec_verdict c)) scases.\nPrint R.\n")
         rc, out = C.coq_run(p)
-        m = re.search(r"M\s*=\s*(\[[^\]]*\])", out.replace("\n", " "))
+        flat = out.replace("\n", " ")
+        m = re.search(r"M\s*=\s*(\[[^\]]*\])", flat)
         if rc == 124:
             ctx.notes.append("model evaluation shard %s/%d timed out: skipped" % (tag, k))
-            return k, [], ""
+            return k, [], "", []
         if rc != 0 or not m:
-            return k, None, out[-800:]
-        return k, [int(x.replace("%N", "")) for x in re.findall(r"\d+(?:%N)?", m.group(1))], ""
+            return k, None, out[-800:], []
+        rows = []
+        if picks[k]:
+            prs = re.findall(r"\(\s*(true|false),\s*(\d+)%N\)", flat[flat.index("R ="):] if "R =" in flat else "")
+            if len(prs) != len(picks[k]):
+                return k, None, "spec rows missing: " + out[-600:], []
+            rows = [(i, ini == "true", int(v)) for i, (ini, v) in zip(picks[k], prs)]
+        return k, [int(x.replace("%N", "")) for x in re.findall(r"\d+(?:%N)?", m.group(1))], "", rows
 
-    bad, errs = [], []
-    for k, idxs, err in C.parallel_map(run_shard, range(len(shards))):
+    bad, errs, srows = [], [], []
+    for k, idxs, err, rows in C.parallel_map(run_shard, range(len(shards))):
         if idxs is None:
             errs.append("shard %d: %s" % (k, err))
         else:
             bad += [k * shard + i for i in idxs]
-    return bad, errs
+            srows += rows
+    return bad, errs, srows
 
 
 def model_obs_text(ctx, case, res, variant):
@@ -198,6 +228,65 @@ def model_obs_text(ctx, case, res, variant):
         f.write(HEADER + "Definition c := %s.\nEval vm_compute in model_obs c.\n" % coq_case(case, res, variant, fuel_for(case)))
     rc, out = C.coq_run(p)
     return re.sub(r"\s+", " ", out)[-1500:]
+
+
+def coq_spec_rejected(ctx, vcases, tag):
+    """phase 4: the Coq reference LTS (Model/C03_Spec.v) judges the histories: for every case Coq walks the model's run (which
+    is the real prelude's run whenever case_ok holds) and checks with the spec's own step function that each step is the
+    spec-step sequence Model/C03_Abs.actions_of between the abstractions of the two states, emitting the same events, and that the
+    final state is quiescent in the spec with the right report.  returns (rejected indices, verdict codes, errors)"""
+    shard = max(60, min(250, -(-len(vcases) // C.NCPU)))
+    shards = [vcases[i:i + shard] for i in range(0, len(vcases), shard)]
+
+    def run_shard(k):
+        p = os.path.join(ctx.work, "spec_%s_%d.v" % (tag, k))
+        with open(p, "w") as f:
+            f.write(HEADER)
+            f.write("Definition cases : list case := [\n" + ";\n".join(shards[k]) + "].\n")
+            f.write("Definition R := Eval vm_compute in map (fun c => (init_ok c, spec_verdict c)) cases.\nPrint R.\n")
+        rc, out = C.coq_run(p)
+        if rc == 124:
+            ctx.notes.append("Coq spec evaluation shard %s/%d timed out: skipped" % (tag, k))
+            return k, [], ""
+        prs = re.findall(r"\(\s*(true|false),\s*(\d+)%N\)", out)
+        if rc != 0 or len(prs) != len(shards[k]):
+            return k, None, out[-800:]
+        return k, [(i, ini == "true", int(v)) for i, (ini, v) in enumerate(prs)], ""
+
+    bad, errs = [], []
+    for k, rows, err in C.parallel_map(run_shard, range(len(shards))):
+        if rows is None:
+            errs.append("shard %d: %s" % (k, err))
+        else:
+            bad += [(k * shard + i, ini, v) for i, ini, v in rows if not ini or v != 0]
+    return bad, errs
+
+
+def spec_stride(ctx, tag):
+    """which of the explored histories the Coq spec judges (the walk costs ~6x a model run)"""
+    if tag in ("wit", "prog", "replay"):
+        return 1
+    return (8 if tag == "ex" else 4) if ctx.quick else 4
+
+
+_DUMMY = dict(outcome="exit", trace=[], chans=[], awake=0, total=0, mainFinished=True, picksUsed=0)
+
+
+def spec_controls(ctx):
+    """the Coq spec must REJECT what Go forbids: the model of the historic (as_is) runtime on the two witnesses
+    (close(nil) returns normally; close panics the closer while a select-sender sleeps) is not a path of the LTS,
+    the repaired one is"""
+    rows = []
+    for w in (W_F7, W_F6):
+        for v in (dict(fix_close_nil=False, fix_select_send=False), dict(fix_close_nil=True, fix_select_send=True)):
+            rows.append(coq_case(w, _DUMMY, v, fuel_for(w)))
+    bad, errs = coq_spec_rejected(ctx, rows, "ctl")
+    got = sorted(i for i, _, _ in bad)
+    ctx.cov["coq_spec_negative_controls"] = dict(rejected=got, expected=[0, 2])
+    ctx.count(["coq-spec-controls"], nontrivial=True)
+    if errs or got != [0, 2]:
+        ctx.violation("coq-spec-control-failed", "the Coq reference LTS does not separate the historic defective behaviours (must be rejected) "
+                      "from the repaired ones (must be accepted): rejected=%r errors=%r" % (bad, errs[:1]), dict(kind="spec-control"), concrete=False)
 
 
 def fuel_for(case):
@@ -385,7 +474,10 @@ def check_cases(ctx, cases, variant, tag, pool):
                 ctx.violation(sig, what, dict(kind="script", case=strip(c), impl=res, variant=variant), concrete=concrete)
     ctx.log("%s: direct oracle done" % tag)
     vc = [coq_case(c, res, variant, fuel_for(c)) for c, res in zip(cases, results)]
-    bad, errs = coq_mismatches(ctx, vc, tag)
+    # phase 4: the Coq reference LTS judges (a fixed stride of) the histories which the Python reference accepted
+    stride = spec_stride(ctx, tag)
+    pick = [i for i in range(len(cases)) if i % stride == 0 and not verdicts[i]]
+    bad, errs, srows = coq_mismatches(ctx, vc, tag, spec_pick=pick)
     for e in errs[:2]:
         ctx.violation("model-eval-failed", "Coq evaluation of the model failed", dict(log=e), concrete=False)
     for i in bad[:3]:
@@ -394,6 +486,17 @@ def check_cases(ctx, cases, variant, tag, pool):
                            model=model_obs_text(ctx, cases[i], results[i], variant),
                            correspondence="Corr/C03_Eval.case_ok vs compiler/prelude/goroutines.js"), concrete=False)
     dist["model_mismatches"] = dist.get("model_mismatches", 0) + len(bad)
+    badset = set(bad)
+    sbad = [(i, ini, code) for i, ini, code in srows if i not in badset and (not ini or code != 0)]
+    for i, ini, code in sbad[:3]:
+        ctx.violation("coq-spec-rejects-history", "the Coq reference LTS (Model/C03_Spec.v) rejects a history of the real runtime that the model reproduces "
+                      "and the Python reference accepts: %s" % ("initial states differ" if not ini else
+                      ("final state not quiescent / wrong report" if code == 1000000 else "step %d of the model run is not the spec-step sequence actions_of" % code)),
+                      dict(kind="script", case=strip(cases[i]), impl=results[i], variant=variant,
+                           correspondence="Corr/C03_SpecEval.spec_verdict (impl_refines_spec, per history)"), concrete=False)
+    dist["coq_spec_rejected"] = dist.get("coq_spec_rejected", 0) + len(sbad)
+    ctx.cov["histories_judged_by_coq_spec"] = ctx.cov.get("histories_judged_by_coq_spec", 0) + len(srows)
+    ctx.log("%s: Coq spec judged %d histories (%d rejected)" % (tag, len(srows), len(sbad)))
     ctx.cov["traces_validated_against_impl"] = ctx.cov.get("traces_validated_against_impl", 0) + len(vc)
     ctx.log("%s: model comparison done (%d mismatches)" % (tag, len(bad)))
     return results
@@ -678,12 +781,23 @@ def programs(ctx, variant, pool):
     # the random program scripts also go through the model comparison
     pairs = [(c, res) for c, res in zip(allc, results) if res is not None]
     vc = [coq_case(c, res, variant, fuel_for(c)) for c, res in pairs]
-    bad, errs = coq_mismatches(ctx, vc, "prog")
+    bad, errs, srows = coq_mismatches(ctx, vc, "prog", spec_pick=list(range(len(vc))))
     for i in bad[:2]:
         ctx.violation("model-mismatch", "model and the real runtime disagree on a script", dict(kind="script", case=strip(pairs[i][0]), impl=pairs[i][1], variant=variant,
                       model=model_obs_text(ctx, pairs[i][0], pairs[i][1], variant)), concrete=False)
     for e in errs[:1]:
         ctx.violation("model-eval-failed", "Coq evaluation of the model failed", dict(log=e), concrete=False)
+    badset = set(bad)
+    nrep = 0
+    for i, ini, code in srows:
+        if i in badset or (ini and code == 0) or nrep >= 2:
+            continue
+        if S.check(pairs[i][0], pairs[i][1]):
+            continue            # the Python reference rejects it as well: that is reported through the direct oracle
+        nrep += 1
+        ctx.violation("coq-spec-rejects-history", "the Coq reference LTS rejects a history the model reproduces and the Python reference accepts (verdict %d)" % code,
+                      dict(kind="script", case=strip(pairs[i][0]), impl=pairs[i][1], variant=variant), concrete=False)
+    ctx.cov["histories_judged_by_coq_spec"] = ctx.cov.get("histories_judged_by_coq_spec", 0) + len(srows)
 
 
 GOEXIT_WITNESS = """package main
@@ -754,6 +868,7 @@ def correspond(ctx):
         # the two witnesses first: they decide which theorem speaks about the tree
         w = [dict(W_F7, fam="witness"), dict(W_F6, fam="witness")]
         check_cases(ctx, w, variant, "wit", pool)
+        spec_controls(ctx)
         ex = gen_exhaustive(ctx)
         if ctx.quick:
             # keep the quick tier near a minute: fixed-seed samples of both exhaustive families
@@ -795,6 +910,7 @@ def replay(ctx, data):
     print("recorded:", json.dumps(rp.get("impl") or rp.get("compiled")))
     print("reference verdict:", S.check(case, res))
     print("model:", model_obs_text(ctx, case, res, variant))
+    print("Coq reference LTS (rejected list, empty = accepted):", coq_spec_rejected(ctx, [coq_case(case, res, variant, fuel_for(case))], "replay"))
     if rp.get("source"):
         print("Go program:\n" + rp["source"])
     return 0
